@@ -19,7 +19,7 @@ import anyio
 
 from ..explore import execute, new_summary, run_main_asyncio
 
-SHAPES = ("one", "two-same", "two-diff", "sub-adds", "sub-inherits", "sub-overrides", "slots", "value-equal", "three", "falsy")
+SHAPES = ("one", "two-same", "two-diff", "sub-adds", "sub-inherits", "sub-overrides", "slots", "value-equal", "three", "falsy", "mangled")
 
 
 def build_shape(shape: str) -> tuple[list[type], dict]:
@@ -87,6 +87,15 @@ def build_shape(shape: str) -> tuple[list[type], dict]:
             sig_b = Signal(E2)
 
         return [C], {C: {"sig_a": E1, "sig_b": E2}}
+    if shape == "mangled":
+        # private (name-mangled) signals declared under the same source name in a class and its subclass are two attributes
+        class Base:  # type: ignore[no-redef]
+            __changed = Signal(E1)
+
+        class Sub(Base):  # type: ignore[no-redef]
+            __changed = Signal(E2)
+
+        return [Sub], {Sub: {"_Base__changed": E1, "_Sub__changed": E2}}
     if shape == "falsy":
         class C:  # type: ignore[no-redef]
             """an owner that is falsy (an empty container): still an instance, not the class"""
@@ -281,6 +290,15 @@ class C11:
                         continue
                     if ev.source is not insts[(ci, k)] or ev.topic != attr:
                         fails.append(("stamp", f"event dispatched on {ch} carries source {ev.source!r} topic {ev.topic!r}"))
+                    # not an event at all: the event class itself, a string
+                    for junk in (evcls, "event"):
+                        try:
+                            bound[ch].dispatch(junk)
+                            fails.append(("type", f"dispatch({junk!r}) on {ch} was accepted"))
+                        except TypeError:
+                            pass
+                        except BaseException as e:  # noqa: BLE001
+                            fails.append(("type", f"dispatch({junk!r}) on {ch} raised {e!r} instead of TypeError"))
                     # wrong event class
                     others = {c for m in sigmap.values() for c in m.values()} - {evcls}
                     for oc in others:
